@@ -2,6 +2,7 @@
   Line-protocol driver for the Codec model (engines `codec` for C14 / C01-typed / C13-typed).
 -/
 import CedarModel.Codec
+import CedarModel.CodecLarge
 import Oracle.Util
 
 namespace Oracle.CodecEngine
@@ -50,6 +51,10 @@ def step (st : St) (toks : List String) : St × String :=
   | ["put", "str", pl] =>
     match parsePayload pl with
     | some s => applyPut st (putString st.enc st.buf s)
+    | none => (st, "bad-op")
+  | ["put", "strbytes", pl] =>
+    match parsePayload pl with
+    | some s => applyPut st (putStringBytes st.enc st.buf s)
     | none => (st, "bad-op")
   | ["put", "bytes", pl] =>
     match parsePayload pl with
